@@ -44,7 +44,9 @@ def run(rep):
     rep.assumptions += ["the +-10 s covariance of all seven clock times depends on the real ephemeris evaluated d hours apart and is outside the claim"]
     results = base.run_obligations(rep, [(jd.jd_gmt_shift, None), (jd.jd_formula, (1583, 9999)), (wiring.prayer_times_dt_wiring, False),
                                          (wiring.prayer_times_dt_wiring, True), (transit.ra_deltas, None), (transit.dhuhr_transit, None), (wiring.astro_day_wiring, None)] +
-                                   [(rounding.rounding, ("None", k, -50, 75, 1500)) for k in rounding.PRAYERS])
+                                   [(rounding.rounding, ("None", k, -50, 75, 1500)) for k in rounding.PRAYERS] + [(wiring.astro_new_obls, None)])
+    from . import ephsweep as _es
+    _es.confirm_jd_candidates(rep, results)
     if any((x["cands"] or x["inconclusive"]) for x in results if x["name"].startswith("hour_to_time")):
         from . import c11
         c11.confirm_rounding(rep, results)
